@@ -14,6 +14,7 @@ import IsoMdl.Driver.Honest
 import IsoMdl.Driver.Schema
 import IsoMdl.Driver.StateCodec
 import IsoMdl.Driver.Report
+import IsoMdl.Driver.ResponseFacts
 /-
 Line-protocol driver of the executable model: one operation per input line, one observation per
 output line.  Unknown or malformed operations print `bad-op` (never a default value).
@@ -24,7 +25,7 @@ structure DState where
   world : Option IsoMdl.Session.World := none
   saved : List (String × IsoMdl.Session.World) := []
 
-def stateless : List (List String → Option String) := [ageOp, ivOp, c13Op, c06Op, eqOp, issuanceOp, discOp, cddlOp, wireOp, tag24Op, coseOp, readerAuthOp, deviceAuthReqOp, x509Op, partialOp, kdOp, nsOp, honestOp, schemaOp, stateCodecOp, reportOp]
+def stateless : List (List String → Option String) := [ageOp, ivOp, c13Op, c06Op, eqOp, issuanceOp, discOp, cddlOp, wireOp, tag24Op, coseOp, readerAuthOp, deviceAuthReqOp, x509Op, partialOp, kdOp, nsOp, honestOp, schemaOp, stateCodecOp, reportOp, responseFactsOp]
 
 def step (st : DState) (line : String) : DState × String :=
   let toks := (line.trimAscii.toString.splitOn " ").filter (· ≠ "")
